@@ -18,7 +18,8 @@ RULE = ('geometry recipes (gens/geo.py): rectangular with drawn spacings/origin 
         'name lists, byte-identical second write, independent reader of the written file (own column layout; feet '
         'check on raw columns), independent Fortran-style writer -> library reader; the 7 shipped files whole. '
         'Non-trivial = any non-default header option, surface, well, specified centre or non-rectangular mesh; '
-        'distinct = distinct recipe JSON.')
+        'distinct = distinct recipe JSON.'
+        ' Also: the geometry object is extracted again after write() (must be unchanged) and written twice (same file); up to three assignments to block_order / atmosphere_type through the property setters before the write.')
 ASSUMPTIONS = ['names written to files are right-justified (format documentation); well names have 5 characters',
                'surface elevations are either exactly a layer boundary value or at least 2% of a layer away from one, '
                'so 2-decimal rounding cannot legitimately change the block list (layers are >= 0.5 thick)',
@@ -34,6 +35,7 @@ def case_strategy():
             rc['centres'] = [[draw(st.sampled_from([0, 0, 1, 2, 7, 50, 300])), draw(st.sampled_from([-0.5, 0.0, 0.0, 0.3])),
                               draw(st.sampled_from([-0.25, 0.0, 0.0, 0.6]))] for _ in range(draw(st.integers(1, 3)))]
         c = {'k': 'gen', 'rc': rc}
+        if draw(st.integers(0, 4)) == 0: c['top_centre'] = draw(st.sampled_from([0.01, 0.25, 5.0, -0.5]))
         if draw(st.integers(0, 2)) == 0:
             one = st.one_of(st.tuples(st.just('block_order'), st.sampled_from([None, 'layer_column', 'dmplex'])),
                             st.tuples(st.just('atmosphere_type'), st.sampled_from([0, 1, 2])))
@@ -133,7 +135,7 @@ def compare(R, tag, got, exp, size):
             'block connection name lists differ')
 
 
-def check_raw_file(R, path, m, scale):
+def check_raw_file(R, path, m, scale, shipped=False):
     """Independent reader: the file itself holds the model in file units, in the documented columns."""
     try:
         r = mul_ref.read(path)
@@ -145,12 +147,13 @@ def check_raw_file(R, path, m, scale):
     R.check(r['header']['atmosphere_type'] == h['atmosphere_type'], 'raw:header:atmosphere_type', repr(r['header']['atmosphere_type']))
     R.check(r['header']['unit'].strip() == h['unit_type'].strip(), 'raw:header:unit',
             'columns 28-32 hold %r for a geometry with unit_type %r' % (r['header']['unit'], h['unit_type']))
-    R.check(feq(r['header']['atmosphere_volume'], float('%10.2e' % h['atmosphere_volume'])), 'raw:header:atmosphere_volume',
-            repr(r['header']['atmosphere_volume']))
-    R.check(feq(r['header']['atmosphere_connection'], float('%10.2e' % h['atmosphere_connection'])),
-            'raw:header:atmosphere_connection', repr(r['header']['atmosphere_connection']))
-    R.check(feq(r['header']['permeability_angle'], float('%10.2f' % h['permeability_angle'])), 'raw:header:permeability_angle',
-            repr(r['header']['permeability_angle']))
+    for key, fmt in (('atmosphere_volume', '%10.2e'), ('atmosphere_connection', '%10.2e'), ('permeability_angle', '%10.2f')):
+        fv = r['header'][key]
+        if shipped:
+            if fv is None: continue         # blank in a hand-made file: the constructor default applies
+            R.check(abs(fv - h[key]) <= 1e-9 * max(abs(fv), 1e-300), 'raw:header:' + key, 'file %r, geometry %r' % (fv, h[key]))
+        else:
+            R.check(feq(fv, float(fmt % h[key])), 'raw:header:' + key, repr(fv))
     bo = {None: None, 'layer_column': 0, 'dmplex': 1}[h['block_order']]
     R.check(r['header']['block_order'] == bo, 'raw:header:block_order', repr(r['header']['block_order']))
     ok = len(r['nodes']) == len(m['nodes']) and all(
@@ -161,14 +164,47 @@ def check_raw_file(R, path, m, scale):
     ok = len(r['columns']) == len(m['columns'])
     if ok:
         for a, b in zip(r['columns'], m['columns']):
-            if a['name'].strip() != b['name'].strip() or [x.strip() for x in a['nodes']] != [x.strip() for x in b['nodes']] \
-                    or bool(a['centre_specified']) != bool(b['centre_specified']):
+            na, nb = [x.strip() for x in a['nodes']], [x.strip() for x in b['nodes']]
+            same_nodes = na == nb
+            if shipped and not same_nodes and len(na) == len(nb):
+                # a column listed clockwise in a hand-made file is turned counter-clockwise on reading
+                rots = [nb[k:] + nb[:k] for k in range(len(nb))]
+                same_nodes = na in rots or na[::-1] in rots
+            if a['name'].strip() != b['name'].strip() or not same_nodes or bool(a['centre_specified']) != bool(b['centre_specified']):
                 ok = False; break
             if b['centre_specified'] and not (feq(a['cx'], printed(b['centre'][0], scale)) and feq(a['cy'], printed(b['centre'][1], scale))):
                 ok = False; break
     R.check(ok, 'raw:columns', 'GRID section differs from the model')
     R.check([[a.strip(), b.strip()] for a, b in r['connections']] == [[a.strip(), b.strip()] for a, b in m['connections']],
             'raw:connections', 'CONNECTIONS section differs from the model')
+    if shipped:
+        # a hand-made file: a blank centre means "midway between this bottom and the one above" (the first layer: its
+        # bottom); SURFA records come in any order and may repeat the default; numbers may carry more decimals
+        ok = len(r['layers']) == len(m['layers'])
+        prev = None
+        for a, b in zip(r['layers'], m['layers']) if ok else []:
+            want = a[2] if a[2] is not None else (a[1] if prev is None else 0.5 * (a[1] + prev))
+            if not (a[0].strip() == b['name'].strip() and abs(a[1] - b['bottom'] / scale) <= 1e-9 * max(1.0, abs(a[1]))
+                    and abs(want - b['centre'] / scale) <= 1e-9 * max(1.0, abs(want))):
+                ok = False
+                R.fail('raw:layers', 'layer %r: file has bottom %r centre %r, the geometry read from it bottom %r centre %r' % (
+                    a[0], a[1], a[2], b['bottom'] / scale, b['centre'] / scale)); break
+            prev = a[1]
+        if not ok and not any(sg == 'raw:layers' for sg, _d in R.findings): R.fail('raw:layers', 'layer count differs')
+        fs = dict((a.strip(), b) for a, b in r['surface'])
+        top = m['layers'][0]['bottom']
+        for c in m['columns']:
+            z = fs.get(c['name'].strip())
+            have = c['surface'] if c['surface'] is not None else top
+            if z is not None and not abs(z - have / scale) <= 1e-9 * max(1.0, abs(z)):
+                R.fail('raw:surface', 'column %r: SURFA record %r, geometry surface %r' % (c['name'], z, have / scale)); break
+            if z is None and c['surface'] is not None and c['surface'] != top:
+                R.fail('raw:surface', 'column %r has surface %r without a SURFA record' % (c['name'], c['surface'])); break
+        wl = [[w['name']] + [v / scale for v in p] for w in m['wells'] for p in w['pos']]
+        ok = len(wl) == len(r['wells']) and all(a[0].strip() == b[0].strip() and all(abs(x - y) <= 1e-9 * max(1.0, abs(x)) for x, y in zip(a[1:], b[1:]))
+                                                for a, b in zip(r['wells'], wl))
+        R.check(ok, 'raw:wells', 'WELLS section differs from the wells read')
+        return
     ok = len(r['layers']) == len(m['layers']) and all(
         a[0].strip() == b['name'].strip() and feq(a[1], printed(b['bottom'], scale)) and feq(a[2], printed(b['centre'], scale))
         for a, b in zip(r['layers'], m['layers']))
@@ -244,6 +280,12 @@ def run_case(case, R):
         if case['k'] == 'shipped':
             R.label('shipped:' + case['file']); R.nontrivial()
             with R.lib('read-shipped'): g = mulgrids.mulgrid(geo.shipped_path(case['file']))
+            # what the library read from the shipped file against an independent reading of the same file
+            m0 = geo.extract(g)
+            before = len(R.findings)
+            check_raw_file(R, geo.shipped_path(case['file']), m0, {'': 1.0, 'FEET ': 0.3048}[m0['header']['unit_type']], shipped=True)
+            if len(R.findings) > before:
+                R.findings[before:] = [('shipped-' + sg, d) for sg, d in R.findings[before:]]
             run_geometry(R, g, [])
             return
         rc = case['rc']
@@ -265,6 +307,10 @@ def run_case(case, R):
             for b in bad: R.exclude('input:' + b)
             R.label('skipped:invalid-input'); return
         # header options that were changed through their property setters before the write (the last value counts)
+        if case.get('top_centre'):
+            # an atmosphere layer whose centre is not its bottom (as in the shipped g4.dat / g5.dat: 1500.00 / 1500.01)
+            R.label('top-layer-centre-differs-from-bottom')
+            g.layerlist[0].centre = g.layerlist[0].bottom + float(case['top_centre'])
         for name, v in case.get('setters') or []:
             R.label('setter:' + name)
             try:
